@@ -170,6 +170,125 @@ class Block:
 
 
 class Function:
+    def _resolve_aliases(self):
+        """A local pointer that is initialised once with the address of a sub-object of a parameter (`buf = &context->buffer`)
+        and never assigned again is a pure name for that object: every access path through it is rewritten to the full
+        path, so that rules see `context->buffer.position` whether or not the code uses the alias."""
+        import re
+        cands = {}
+        assigned = {}
+        for n in self.nodes.values():
+            if n.k == "DeclStmt":
+                for d in n.get("decls", []):
+                    if d["type"].get("tk") == "ptr":
+                        assigned[d["name"]] = assigned.get(d["name"], 0) + (1 if "init" in d else 0)
+                        if "init" in d:
+                            init = self.nodes[d["init"]]
+                            x = init
+                            while x.k in ("ImplicitCastExpr", "ParenExpr", "CStyleCastExpr") and x.ch:
+                                x = x.child(0)
+                            p = x.get("path")
+                            if x.k == "UnaryOperator" and x.get("op") == "&" and p and p.startswith("&") and ("->" in p) and "[" not in p:
+                                cands[d["name"]] = p[1:]
+            elif n.k in ("BinaryOperator", "CompoundAssignOperator") and n.get("op", "").endswith("=") and n.get("op") not in ("==", "!=", "<=", ">="):
+                t = n.child(0)
+                while t.k in ("ParenExpr",) and t.ch:
+                    t = t.child(0)
+                if t.k == "DeclRefExpr" and t.get("tk") == "ptr":
+                    assigned[t["decl"]["name"]] = assigned.get(t["decl"]["name"], 0) + 1
+            elif n.k == "UnaryOperator" and n.get("op") in ("++", "--"):
+                t = n.child(0)
+                while t.k in ("ParenExpr",) and t.ch:
+                    t = t.child(0)
+                if t.k == "DeclRefExpr" and t.get("tk") == "ptr":
+                    assigned[t["decl"]["name"]] = assigned.get(t["decl"]["name"], 0) + 1
+            elif n.k == "UnaryOperator" and n.get("op") == "&":
+                t = n.child(0)
+                while t.k in ("ParenExpr",) and t.ch:
+                    t = t.child(0)
+                if t.k == "DeclRefExpr" and t.get("tk") == "ptr":
+                    assigned[t["decl"]["name"]] = assigned.get(t["decl"]["name"], 0) + 2     # address taken: not a pure name
+        al = {a: tgt for a, tgt in cands.items() if assigned.get(a, 0) == 1}
+        # table walkers: a local pointer that is set to a global array (`reg = errs`) and otherwise only stepped by one
+        # (`reg++`) names the element errs[reg]; `reg->field` is rewritten to `errs[reg].field`
+        walkers = {}
+        steps, sets_ = {}, {}
+        for n in self.nodes.values():
+            t = None
+            if n.k in ("BinaryOperator", "CompoundAssignOperator") and n.get("op") in ("=", "+=", "-="):
+                t = n.child(0)
+            elif n.k == "UnaryOperator" and n.get("op") in ("++", "--"):
+                t = n.child(0)
+            if t is None:
+                continue
+            while t.k == "ParenExpr" and t.ch:
+                t = t.child(0)
+            if t.k != "DeclRefExpr" or t.get("tk") != "ptr" or t["decl"]["kind"] != "local":
+                continue
+            name = t["decl"]["name"]
+            if n.k == "UnaryOperator" and n["op"] == "++":
+                steps[name] = steps.get(name, 0) + 1
+            elif n.get("op") == "=":
+                r = n.child(1)
+                while r.k in ("ImplicitCastExpr", "ParenExpr", "CStyleCastExpr") and r.ch:
+                    r = r.child(0)
+                if r.k == "DeclRefExpr" and r["decl"]["kind"] == "global" and r.get("tk") == "array":
+                    sets_.setdefault(name, []).append(r["decl"]["name"])
+                else:
+                    sets_.setdefault(name, []).append(None)
+            else:
+                sets_.setdefault(name, []).append(None)
+        for n in self.nodes.values():
+            if n.k == "DeclStmt":
+                for d in n.get("decls", []):
+                    if d["type"].get("tk") == "ptr" and "init" in d:
+                        r = self.nodes[d["init"]]
+                        while r.k in ("ImplicitCastExpr", "ParenExpr", "CStyleCastExpr") and r.ch:
+                            r = r.child(0)
+                        if r.k == "DeclRefExpr" and r["decl"]["kind"] == "global" and r.get("tk") == "array":
+                            sets_.setdefault(d["name"], []).append(r["decl"]["name"])
+                        else:
+                            sets_.setdefault(d["name"], []).append(None)
+        for name, srcs in sets_.items():
+            if len(srcs) == 1 and srcs[0] and steps.get(name) and assigned.get(name, 0) - (1 if name in cands else 0) < 10 and name not in al:
+                if all(x is not None for x in srcs):
+                    walkers[name] = srcs[0]
+        self.walkers = walkers
+        # an alias of an alias
+        for _ in range(3):
+            for a, tgt in list(al.items()):
+                root = re.match(r"(\w+)->", tgt)
+                if root and root.group(1) in al and root.group(1) != a:
+                    al[a] = al[root.group(1)] + "." + tgt[len(root.group(0)):]
+        self.aliases = al
+        if not al and not walkers:
+            return
+        pats = [(re.compile(r"(?<![\w.>])%s->" % re.escape(a)), tgt + ".") for a, tgt in al.items()]
+        pats += [(re.compile(r"(?<![\w.>])%s->" % re.escape(a)), "%s[%s]." % (tab, a)) for a, tab in walkers.items()]
+        bare = [(re.compile(r"(?<![\w.>])%s(?![\w])(?!->)" % re.escape(a)), "&" + tgt) for a, tgt in al.items()]
+        for n in self.nodes.values():
+            p = n.get("path")
+            if p and "->" in p:
+                q = p
+                for rx, rep in pats:
+                    q = rx.sub(rep, q)
+                if q != p:
+                    n["path0"] = p
+                    n["path"] = q
+            elif p in al and n.k == "DeclRefExpr":
+                n["path0"] = p
+                n["path"] = "&" + al[p]
+            src = n.get("src")
+            if src and any(a in src for a in list(al) + list(walkers)):
+                q = src
+                for rx, rep in pats:
+                    q = rx.sub(rep, q)
+                for rx, rep in bare:
+                    q = rx.sub(rep, q)
+                if q != src:
+                    n["src0"] = src
+                    n["src"] = q
+
     def __init__(self, tu, j):
         self.tu = tu
         self.j = j
@@ -208,6 +327,7 @@ class Function:
                 b.succs.append(self.blocks[t] if t is not None else None)
                 if t is not None:
                     self.blocks[t].preds.append(b)
+        self._resolve_aliases()
         # element -> (block, index)
         self.where = {}
         for b in self.blocks.values():
@@ -254,6 +374,69 @@ class Function:
 
     def __repr__(self):
         return "<Function %s>" % self.name
+
+
+def instantiate(g, call, tag):
+    """A renamed copy of helper function g for one call site: every parameter that is bound to a plain access path of the
+    caller (`summary`, `&register_group`, `context`) is replaced by that path, every other parameter and every local is
+    prefixed with `tag`.  Returns (clone, bindings) where bindings lists (renamed parameter, argument node) for the
+    parameters that have to be bound by value.  The clone's nodes can be fed to the same per-element machinery as the
+    caller's nodes (inlining without touching the caller's CFG)."""
+    import copy
+    import re
+    j = copy.deepcopy(g.j)
+    args = [n for n in call.ch[1:]] if call.ch else []
+    args = [call.fn.nodes[a] if isinstance(a, int) else a for a in args]
+    ren_arrow, ren_plain, byvalue = {}, {}, []
+    for i, prm in enumerate(g.params):
+        name = prm["name"]
+        a = args[i] if i < len(args) else None
+        ap = None
+        if a is not None:
+            x = a
+            while x.k in ("ImplicitCastExpr", "ParenExpr", "CStyleCastExpr") and x.ch:
+                x = x.child(0)
+            ap = x.get("path")
+            if ap and not re.match(r"^&?[\w.\->\[\]]+$", ap):
+                ap = None
+        if ap and ap.startswith("&") and prm["type"].get("tk") == "ptr":
+            ren_arrow[name] = ap[1:] + "."            # p->f  ==>  obj.f
+            ren_plain[name] = ap
+        elif ap and not ap.startswith("&"):
+            ren_arrow[name] = ap + "->"
+            ren_plain[name] = ap
+        else:
+            ren_plain[name] = tag + name
+            ren_arrow[name] = tag + name + "->"
+            if a is not None:
+                byvalue.append((tag + name, a))
+    locs = set()
+    for n in j["nodes"].values():
+        if n.get("k") == "DeclStmt":
+            for d in n.get("decls", []):
+                locs.add(d["name"])
+    for name in locs:
+        ren_plain[name] = tag + name
+        ren_arrow[name] = tag + name + "->"
+
+    def sub(txt):
+        for name in sorted(ren_plain, key=len, reverse=True):
+            txt = re.sub(r"(?<![\w.>])%s->" % re.escape(name), lambda m, r=ren_arrow[name]: r, txt)
+            txt = re.sub(r"(?<![\w.>])%s(?![\w])" % re.escape(name), lambda m, r=ren_plain[name]: r, txt)
+        return txt
+    for n in j["nodes"].values():
+        for key in ("path", "src"):
+            if isinstance(n.get(key), str):
+                n[key] = sub(n[key])
+        d = n.get("decl")
+        if isinstance(d, dict) and d.get("name") in ren_plain and d.get("kind") in ("param", "local"):
+            d["name"] = ren_plain[d["name"]] if re.match(r"^[\w:$]+$", ren_plain[d["name"]]) else d["name"]
+        if n.get("k") == "DeclStmt":
+            for dd in n.get("decls", []):
+                dd["name"] = ren_plain.get(dd["name"], dd["name"])
+    j["name"] = tag + g.name
+    clone = Function(g.tu, j)
+    return clone, byvalue
 
 
 class TU:
